@@ -44,7 +44,10 @@ What is ASSUMED (`ReachableR root`):
   report of a replication carries a term not below the leader's; a transport error of a `timeoutNow` request names a
   replicated node; closed nodes are frozen (only an open node handles operations; any node's process may be restarted
   from its disk); a restart retains at least one snapshot (`SnapshotsRetain ≥ 1`).
-"partial": these assumptions (and no snapshots / compaction, as in Sys/Member.lean).
+"partial": these assumptions (and no snapshots / compaction, as in Sys/Member.lean) — and every node of every run is
+bootstrapped from the start (see `InitR`; `AuditMember.no_fresh_node`): a server added by a membership change starts with
+a copy of the bootstrap entry, never with empty storage; the `Raft.bootstrap` path and "not bootstrapped yet" followers
+are outside these theorems.
 -/
 import RaftVerif.Lemmas.MemberSide
 import RaftVerif.Props.C02Member
@@ -58,7 +61,14 @@ open MemberStep (CfgLatest NoFail RootI)
 
 /-! ### the runs -/
 
-/-- the initial states -/
+/-- the initial states.
+
+RESTRICTION (made explicit by `AuditMember.no_fresh_node`): the field `cfl : CfgLatest x` asks of EVERY node — also of
+nodes that are members of no configuration yet — that its log holds a configuration entry, and `good` that it is
+bootstrapped. So EVERY NODE OF EVERY RUN IS BOOTSTRAPPED FROM THE START: a server that a membership change adds to the
+cluster starts with a copy of the bootstrap entry, never with empty storage. The `Raft.bootstrap` path and followers that
+are "not bootstrapped yet" (`follower.canStartElection`; a fresh server that receives its first configuration from the
+leader) are OUTSIDE the theorems of this file. -/
 structure InitR (root : K) (x : Member.Sys) : Prop where
   init : Member.Init x
   good : ∀ i, Good true (x.node i)
@@ -264,17 +274,28 @@ reachable state, for every node (leader, candidate or follower; after completed 
 crashes and restarts):
 1. `configs.latest` is the LAST CONFIGURATION ENTRY OF THE NODE'S LOG — and it is a `CfgAll` configuration: member ids
    strictly increasing, defined actions, two voters without pending action;
-2. the index of that entry is protected — no append request of a current or later term ever conflicts with the log at or
-   below it — or the configuration is pending: `configs.committed` is the configuration entry just before it, and the
-   index of THAT entry is protected. -/
+2. the index of that entry is protected (`C02Member.Protected`: the log holds an entry there, and no append request in the
+   ledger `sent` of the node's current or a later term conflicts with the node's log at or below it) — or the
+   configuration is pending: `configs.committed` is the configuration entry just before it (`MemberFollow.Pend`), and the
+   index of THAT entry is protected;
+3. what protection means for the next step: when an open node handles a delivered operation (`Member.Enabled`, `ReqG`) to
+   completion, its log up to a protected index is unchanged — nothing at or below the index is truncated or replaced.
+(Statement 2 used to be `∃ G, G.root = root ∧ ∀ i, ProtG x G i … ∨ …`, which a degenerate ghost ledger satisfies in every
+state — `AuditMember.protG_degenerate`; repaired: it is now the consequence `MemberInv.protNoConf` draws from `ProtG` for
+the ledger of the invariant `MInv`, stated without ghost ledgers. `AuditMember.protected_informative`: an instance in
+which the first alternative is FALSE.) -/
 theorem cfg_latest_member_partial (root : K) (x : Member.Sys) (h : ReachableR root x) :
     CfgLatest x ∧ (∀ i, CfgAll (x.node i).configs.latest) ∧
-    ∃ G, G.root = root ∧ ∀ i, ProtG x G i (x.node i).configs.latest.index ∨
+    (∀ i, C02Member.Protected x i (x.node i).configs.latest.index ∨
       (MemberFollow.Pend (x.node i).log.entries (x.node i).configs ∧
-        ProtG x G i (x.node i).configs.committed.index) := by
+        C02Member.Protected x i (x.node i).configs.committed.index)) ∧
+    (∀ i k, C02Member.Protected x i k → ∀ op ra ord src, Member.Enabled x i op src → ReqG x i op →
+      (x.node i).closed = "" →
+      ((x.node i).step op ra ord).log.entries.take k = (x.node i).log.entries.take k) := by
   obtain ⟨⟨G, hI, _⟩, hX⟩ := inv_reachable root x h
-  obtain ⟨a, b⟩ := C02Member.cfg_latest_member_modulo_sides root x (reachableNF_of root x h)
-  exact ⟨a, latest_all hI hX.tree, b⟩
+  obtain ⟨a, b, c⟩ := C02Member.cfg_latest_member_modulo_sides root x (reachableNF_of root x h)
+  refine ⟨a, latest_all hI hX.tree, b, fun i k hp op ra ord src he hg ho => c i k hp op ra ord src he (fun _ => ?_)⟩
+  exact ((side_conditions_member_partial root x h).2.2.2.2.2.2 i op src he hg ho ra ord).2.1
 
 /-! ### Examples (non-vacuity) -/
 
